@@ -11,6 +11,7 @@ package inhibit
 
 //@ func (*index).Get
 //@   props C03
+//@   ensures [monitor-lock-released] count("RWMutex).RLock") == count("RWMutex).RUnlock") && count("RWMutex).RLock") == 1
 //@   requires idxOK(c)
 //@   ensures [fresh] fresh(result)
 //@   ensures [sound] forall i int :: 0 <= i && i < len(result) ==> inIdx(c, key, result[i])
@@ -22,6 +23,7 @@ package inhibit
 
 //@ func (*index).Add
 //@   props C03
+//@   ensures [monitor-lock-released] count("Mutex).Lock") == count("Mutex).Unlock") && count("Mutex).Lock") == 1
 //@   requires idxOK(c)
 //@   ensures [added] inIdx(c, key, value)
 //@   ensures [others] forall k model.Fingerprint, v model.Fingerprint :: (k != key || v != value) ==> inIdx(c, k, v) == old(inIdx(c, k, v))
@@ -30,6 +32,7 @@ package inhibit
 
 //@ func (*index).Remove
 //@   props C03
+//@   ensures [monitor-lock-released] count("Mutex).Lock") == count("Mutex).Unlock") && count("Mutex).Lock") == 1
 //@   requires idxOK(c)
 //@   ensures [removed] !inIdx(c, key, value)
 //@   ensures [others] forall k model.Fingerprint, v model.Fingerprint :: (k != key || v != value) ==> inIdx(c, k, v) == old(inIdx(c, k, v))
